@@ -36,8 +36,13 @@ ENDL == <<69,78,68,32>>
 LabelPub == <<80,85,66,76,73,67,32,75,69,89>>                 \* "PUBLIC KEY"
 LabelPriv == <<80,82,73,86,65,84,69,32,75,69,89>>             \* "PRIVATE KEY"
 Pem(label, der) == Dashes \o BEGIN \o label \o Dashes \o <<10>> \o Wrap64(Base64(der), <<>>) \o Dashes \o ENDL \o label \o Dashes \o <<10>>
+\* the same text with CRLF line endings
+RECURSIVE CrLfR(_, _, _)
+CrLfR(t, j, acc) == IF j > Len(t) THEN acc ELSE CrLfR(t, j + 1, IF t[j] = 10 THEN acc \o <<13, 10>> ELSE Append(acc, t[j]))
+CrLf(t) == CrLfR(t, 1, <<>>)
 \* ---------------- DER ----------------
-LenBytes(n) == IF n < 128 THEN <<n>> ELSE IF n < 256 THEN <<129, n>> ELSE <<130, n \div 256, n % 256>>      \* n < 65536
+LenBytes(n) == IF n < 128 THEN <<n>> ELSE IF n < 256 THEN <<129, n>> ELSE IF n < 65536 THEN <<130, n \div 256, n % 256>>
+               ELSE <<131, n \div 65536, (n \div 256) % 256, n % 256>>      \* n < 2^24
 TLV(tag, v) == <<tag>> \o LenBytes(Len(v)) \o v
 RECURSIVE Strip(_)
 Strip(b) == IF Len(b) > 1 /\ b[1] = 0 THEN Strip(Tail(b)) ELSE b
@@ -49,6 +54,7 @@ DecLen(b) == IF Len(b) = 0 THEN <<"err">>
              ELSE IF b[1] < 128 THEN <<"ok", b[1], Tail(b)>>
              ELSE IF b[1] = 129 /\ Len(b) >= 2 /\ b[2] >= 128 THEN <<"ok", b[2], SubSeq(b, 3, Len(b))>>
              ELSE IF b[1] = 130 /\ Len(b) >= 3 /\ b[2] > 0 THEN <<"ok", b[2]*256 + b[3], SubSeq(b, 4, Len(b))>>
+             ELSE IF b[1] = 131 /\ Len(b) >= 4 /\ b[2] > 0 THEN <<"ok", b[2]*65536 + b[3]*256 + b[4], SubSeq(b, 5, Len(b))>>
              ELSE <<"err">>
 DecTLV2(l) == IF l[1] = "err" THEN <<"err">> ELSE IF l[2] > Len(l[3]) THEN <<"err">> ELSE <<"ok", SubSeq(l[3], 1, l[2]), SubSeq(l[3], l[2]+1, Len(l[3]))>>
 DecTLV(tag, b) == IF Len(b) < 2 THEN <<"err">> ELSE IF b[1] # tag THEN <<"err">> ELSE DecTLV2(DecLen(Tail(b)))
